@@ -378,6 +378,15 @@ func (fr *frame) prepareCall(call *ssa.CallCommon) (fn Value, args []Value) {
 		if recv.T == nil {
 			m.runtimePanic("invalid memory address or nil pointer dereference (method " + call.Method.Name() + " invoked on nil interface)")
 		}
+		if nt, ok := recv.T.(*types.Named); ok && nativeTypes[nt] != "" {
+			impl := m.nativeMethod(nativeTypes[nt], call.Method.Name())
+			fn = impl
+			args = append(args, recv.V)
+			for _, a := range call.Args {
+				args = append(args, fr.get(a))
+			}
+			return
+		}
 		if recv.T == rtypeMarker {
 			fn = m.rtypeMethod(call.Method.Name())
 			args = append(args, recv.V)
